@@ -264,6 +264,30 @@ def run(ctx: Ctx, extended: bool = False) -> None:
                     ctx.fail("specs", "toDm_member", f"a valid value is rejected by the converted dm_env spec: {e}", case)
                 if drv.call("spec.gym_contains", spec=js, value=speclib.arr_json(v)) is not True:
                     ctx.disagree("specs", "model gym space rejects a valid value", case)
+        # Python scalars (weakly typed in JAX): a rank-0 spec must treat them like any other value of the dtype jnp.asarray gives
+        # them (int -> int32, float -> float32, bool -> bool with x64 off): accepted exactly when that dtype is the declared one
+        # and the value lies inside the bounds — never converted to the declared dtype first
+        if tuple(spec.shape) == ():
+            b0 = bounds_of(spec)
+            sdt = str(np.dtype(spec.dtype))
+            pys: List[Any] = [0, 1, 3, -1, 300, 2.7, 0.0, 1.0, -0.5, True, False]
+            if b0 is not None and sdt != "bool":
+                lo0, hi0 = float(b0[0]), float(b0[1])
+                if abs(lo0) < 1e6 and abs(hi0) < 1e6:
+                    pys += [int(lo0), int(hi0), int(hi0) + 1, int(lo0) - 1, lo0, hi0, (lo0 + hi0) / 2]
+            for pv in pys:
+                pdt = {bool: "bool", int: "int32", float: "float32"}[type(pv)]
+                av = np.asarray(pv, pdt)
+                inside = True if b0 is None else bool(np.asarray(b0[0]).astype(np.float64) <= float(av) <= np.asarray(b0[1]).astype(np.float64))
+                expect = pdt == sdt and inside
+                ctx.evaluations += 1
+                got = impl_validate(spec, pv)
+                ctx.count(f"value_python_{type(pv).__name__}_{'ok' if got else 'rejected'}")
+                ctx.nontrivial.add((repr(spec), "py", repr(pv)))
+                if got != expect:
+                    ctx.fail("specs", "valid_iff", f"validate {'accepts' if got else 'rejects'} the Python scalar {pv!r} (dtype {pdt} as an array) for a spec of dtype {sdt}",
+                             {**case0, "label": "python_scalar", "value": pv, "validate_accepts": got}, {"label": "python_scalar"})
+                    break
         # replace()
         r0 = spec.replace()
         try:
@@ -280,6 +304,10 @@ def run(ctx: Ctx, extended: bool = False) -> None:
             ctx.fail("specs", "replace_only_named", "replace(name=…) changed another attribute", {**case0, "after": repr(rn)[:300]})
         if mrn != jn:
             ctx.disagree("specs", "model replace(name) != implementation", {**case0, "model": mrn, "impl": jn})
+        # an earlier replace(...) on the same object must not leak into a later one
+        r1 = spec.replace()
+        if speclib.leaf_json(r1) != js:
+            ctx.fail("specs", "replace_nil", "replace() after an earlier replace(name=…) on the same spec differs from the spec", {**case0, "after": repr(r1)[:300]})
         # equality
         label, other = perturb(rng, spec)
         try:
